@@ -169,7 +169,15 @@ func Peek(p any, field string) int {
 var Info []string
 
 // Show records a rendering of an input for the replay report (no-op under the engine).
-func Show(key, val string) { Info = append(Info, key+"="+strconv.Quote(val)) }
+func Show(key, val string) {
+	l := key + "=" + strconv.Quote(val)
+	for _, x := range Info {
+		if x == l {
+			return
+		}
+	}
+	Info = append(Info, l)
+}
 
 // Watch is a debugging aid (engine prints the value under a counterexample).
 func Watch(name string, v any) {}
